@@ -162,19 +162,34 @@ def render_lines(text):
 
 def match_text(pieces, text):
     """Match the real dumps text against the model's pieces. Returns (ok, holes) where holes is
-    a list of (kind, tree, captured_text)."""
-    rx = ""
+    a list of (kind, tree, captured_text). One deterministic pass from left to right: a hole takes the
+    text up to the next occurrence of the literal piece that follows it (SymPy's output never contains
+    those delimiters); no backtracking, so a text that does not match is refused in linear time (a regular
+    expression with one lazy group per hole took exponential time on such a text)."""
+    pos = 0
     holes = []
-    for p in pieces:
+    n = len(pieces)
+    for i, p in enumerate(pieces):
         if p[0] == "txt":
-            rx += re.escape(p[1])
+            if not text.startswith(p[1], pos):
+                return False, []
+            pos += len(p[1])
+            continue
+        if i + 1 < n and pieces[i + 1][0] != "txt":
+            return False, []                      # two holes without a delimiter: not produced by the model
+        if i + 1 == n:
+            cap, pos = text[pos:], len(text)
         else:
-            rx += "(.+?)"
-            holes.append(p)
-    m = re.fullmatch(rx, text, re.S)
-    if not m:
+            j = text.find(pieces[i + 1][1], pos + 1)
+            if j < 0:
+                return False, []
+            cap, pos = text[pos:j], j
+        if not cap:
+            return False, []
+        holes.append((p[0], p[1], cap))
+    if pos != len(text):
         return False, []
-    return True, [(h[0], h[1], m.group(i + 1)) for i, h in enumerate(holes)]
+    return True, holes
 
 
 def check_hole(kind, tree, captured):
